@@ -36,7 +36,9 @@ RULE = ("scenario = (shape, firing order / variant, result kind, N): chain shape
         "1000th yield (the rest resolve synchronously inside the resumption), nested inlineCallbacks; every chain shape again with all / every 3rd / a random half of the links "
         "being instances of a trivial Deferred subclass, of a subclass overriding pause/unpause/callback/"
         "errback via super(), or DeferredList/gatherResults aggregates over one source; generators and "
-        "coroutines awaiting subclass instances; N in "
+        "coroutines awaiting subclass instances; every chain shape (plain and each link kind) again with one "
+        "more callback added to each link after the previous link fired, i.e. behind the hand-over to "
+        "the waiting Deferred ('+late'); N in "
         "{1e3, 1e4} (+1e5 for three shapes) quick, 1e5 for all thorough.  A case is distinct by that tuple and "
         "is non-trivial when N >= 1000 (longer than the recursion limit could hide).")
 ASSUMPTIONS = [
@@ -46,7 +48,7 @@ ASSUMPTIONS = [
 ]
 SHARDS = {"quick": 4, "thorough": 16}
 FLOORS = {"scenarios_completed": 100, "depth_comparisons": 100, "probe_calls": 500000, "depth_samples": 1000,
-          "results_checked": 200, "subclass_link_scenarios": 80}
+          "results_checked": 200, "subclass_link_scenarios": 80, "late_callback_scenarios": 40}
 READY = True
 
 BASE_N = 100
@@ -154,8 +156,11 @@ def make_links(n, kind, links, rng):
 
 def chain(n, order, kind, probe, paused=None, pause_after=False, links=None, rng=None):
     """d_i's callback (errback for failures) returns d_{i+1}; a probe callback follows it."""
+    late = order.endswith("+late")
+    order = order[:-5] if late else order
     ds, firefn = make_links(n, kind, links, rng)
     out = []
+    late_added = [False] * n
     final = _E("final") if kind != "s" else _Val()
 
     def mk(nxt):
@@ -169,6 +174,10 @@ def chain(n, order, kind, probe, paused=None, pause_after=False, links=None, rng
 
     def pb_last(r):
         probe.hit(True)
+        return r
+
+    def pb_late(r):
+        probe.hit()
         return r
 
     for i, d in enumerate(ds):
@@ -206,10 +215,15 @@ def chain(n, order, kind, probe, paused=None, pause_after=False, links=None, rng
             for j in paused:
                 ds[j].pause()
         fire(i)
+        if late and i + 1 < n and not late_added[i + 1]:
+            # one more callback on the next link, added AFTER link i fired (in outer-first order: after
+            # link i started waiting on it, i.e. behind the hand-over in that link's callback list)
+            late_added[i + 1] = True
+            ds[i + 1].addBoth(pb_late)
     if paused:
         for i in sorted(paused, reverse=True):
             ds[i].unpause()
-    return out, final, n
+    return out, final, n + sum(late_added)
 
 
 def one_deferred_many_returns(n, variant, kind, probe, links=None):
@@ -373,6 +387,12 @@ def scenarios(ctx):
         for cls in ("trivial", "overriding", "dlist"):
             for pattern in ("all", "every3", "rand"):
                 out.append(("chain", order, kind, big if pattern == "all" else small, pausespec, cls + "-" + pattern))
+    # late-added callbacks: every link gets one more callback after the previous link fired, for plain
+    # links and for every link kind
+    for order, kind, pausespec in shapes:
+        out.append(("chain", order + "+late", kind, big, pausespec, None))
+        for cls in ("trivial", "overriding", "dlist"):
+            out.append(("chain", order + "+late", kind, small, pausespec, cls + "-all"))
     for cls in ("trivial", "overriding"):
         for variant in ("fired", "later"):
             out.append(("onedef", variant, "s", small, None, cls + "-all"))
@@ -459,6 +479,8 @@ def run_scenario(ctx, sc):
     ctx.seen("shapes", "%s/%s/%s%s%s" % (sc[0], sc[1], sc[2], "/" + sc[4] if sc[4] else "", "/" + sc[5] if sc[5] else ""))
     if sc[5]:
         ctx.count("subclass_link_scenarios")
+    if sc[1].endswith("+late"):
+        ctx.count("late_callback_scenarios")
     ctx.sample({"scenario": list(sc), "depth_at_100": depths[BASE_N], "depth_at_N": depths[n]}, limit=6)
     if depths[n] - depths[BASE_N] > SLACK:
         ctx.violation("stack-grows-with-length", "frame depth inside user callbacks grows with the chain length",
